@@ -139,7 +139,7 @@ PLANS = {
                 l1=l1(dict(family="rand", rand=FLAT, invariants=['Inv_C07'], properties=[], tier=1),
                       dict(family="alloc", invariants=["Inv_C07"]),
                       dict(family="abs", invariants=["Inv_C07"]))),
-    "C08": dict(cases=step_cases(["deps", "place", "dag"], FULL),
+    "C08": dict(cases=step_cases(["deps", "place", "dag", "watch"], FULL),
                 l1=l1(dict(family="abs", invariants=["Inv_C08"]))),
     "C10": dict(cases=step_cases(["abs", "pairs"], FULL),
                 l1=l1(dict(family="abs", invariants=["Inv_C10", "Inv_C10H"], properties=["Prop_C10"]))),
@@ -150,7 +150,7 @@ PLANS = {
     "C13": dict(cases=step_cases(["place", "conveyor"], FULL),
                 l1=l1(dict(family="placeflat", invariants=["Inv_C13"], properties=["Prop_C13"]),
                       dict(family="conveyor", invariants=["Inv_C13"], properties=["Prop_C13"]))),
-    "C14": dict(cases=step_cases(["place", "deps", "dag"], FULL),
+    "C14": dict(cases=step_cases(["place", "deps", "dag", "watch"], FULL),
                 l1=l1(dict(family="rand", rand=FLAT, invariants=['Inv_C14'], properties=['Prop_C14'], tier=1),
                       dict(family="place", invariants=["Inv_C14"], properties=["Prop_C14"]))),
 }
@@ -341,6 +341,14 @@ def c17_cases(tier, seed):
         for d, r in combos:
             ops += [{"op": "rebuild"}, {"op": "backward", "due": d, "reverse": r},
                     _cmp({"op": "simulate", "light": True}, 1, "C17")]
+        # a second (and third) backward run on the same project, also after an aborted one
+        d, r = rng.choice(combos)
+        d2, r2 = rng.choice(combos)
+        ops += [{"op": "rebuild"}, {"op": "backward", "due": d, "reverse": r, "light": True},
+                {"op": "backward", "due": d2, "reverse": r2},
+                {"op": "backward", "due": d, "reverse": True, "abortAt": ["performed", 1], "light": True},
+                {"op": "backward", "due": d2, "reverse": r2, "light": True},
+                _cmp({"op": "simulate", "light": True}, 1, "C17", "lg")]
         faults = [(ph, t) for ph in PHASES for t in range(0, 4)]
         faults = rng.sample(faults, 6) if tier == "quick" else faults
         for ph, t in faults:
@@ -524,6 +532,17 @@ def c01_edit_cases(tier, seed):
     return out
 
 
+def c05_edit_cases(tier, seed):
+    """The model is extended between two runs (new task + new worker): the second run has to
+    complete as well."""
+    out = []
+    for cfg in _pool(tier, seed, ["deps", "alloc"], 40, 400, dict(components=False, facilities=False), 30, 300, prefix="W"):
+        ops = [{"op": "simulate", "light": True}, {"op": "add_worker_task"}, {"op": "simulate"},
+               {"op": "rebuild"}, _cmp({"op": "simulate", "light": True}, 3, "C09", "lg")]
+        out.append(_hist(cfg, "c05edit", ops))
+    return out
+
+
 def _topo(n, deps):
     preds = {i: set() for i in range(1, n + 1)}
     for p, s, _ in deps:
@@ -597,7 +616,8 @@ def tlc_hist_cases(family, base_fams, nbase_q=3, nbase_t=12):
     return cases
 
 
-PLANS["C05"]["cases"] = both(PLANS["C05"]["cases"], c05_maxtime_cases)
+PLANS["C05"]["cases"] = both(PLANS["C05"]["cases"], c05_maxtime_cases, c05_edit_cases)
+PLANS["C07"]["cases"] = both(PLANS["C07"]["cases"], tlc_hist_cases("histC18", ["pairs", "alloc"], 1, 4))
 PLANS["C01"]["cases"] = both(PLANS["C01"]["cases"], c01_edit_cases)
 PLANS["C08"]["cases"] = both(PLANS["C08"]["cases"], c08_hist_cases, unit2_cases(),
                                tlc_hist_cases("histC08", ["deps", "placeflat"], 1, 6))
